@@ -181,7 +181,14 @@ def build(vc):
         r = rd.ReductionParams.build(d)
         vc.ensure("O-C04-build.transposes", bool(np.array_equal(r.rot_rnp, r.rot_pnr.T) and np.array_equal(r.rot_wt, r.rot_w.T)))
         vc.ensure("O-C04-build.orthogonal", vc.eq(r.rot_pnr.T @ r.rot_pnr, I3, 1e-12) and vc.eq(r.rot_w @ r.rot_w.T, I3, 1e-12))
-        vc.ensure("O-C04-build.composition", True)
+        # the result depends on the requested instant only, not on what was requested before (a fraction of a second later is a different rotation)
+        d2 = d + datetime.timedelta(seconds=vc.real("later_s", 0.05, 0.95))
+        after_d = rd.ReductionParams.build(d2)
+        rd.ReductionParams.build(d + datetime.timedelta(days=3))
+        fresh = rd.ReductionParams.build(d2)
+        same = bool(np.array_equal(after_d.rot_pnr, fresh.rot_pnr) and np.array_equal(after_d.rot_w, fresh.rot_w) and after_d.date_time == d2)
+        moved = bool(np.abs(after_d.rot_pnr - r.rot_pnr).max() > 1e-7)  # the Earth turned 3.6e-6 .. 7e-5 rad in between
+        vc.ensure("O-C04-build.composition", same and moved)
         vc.ensure("O-C04-build.date", r.date_time == d)
         return
     PN, R, W = orth.LMat.gen("PN"), orth.LMat.gen("R"), orth.LMat.gen("Wp")
@@ -198,6 +205,12 @@ def build(vc):
                                                vc.eq(r.rot_wt @ r.rot_w, Id), vc.eq(r.rot_w @ r.rot_wt, Id)))
     vc.ensure("O-C04-build.composition", vc.And(vc.eq(r.rot_pnr, PN @ R), vc.eq(r.rot_pn, PN), vc.eq(r.rot_w, W)))
     vc.ensure("O-C04-build.date", r.date_time is d)
+    # a second request, a fraction of the same second later, is answered from ITS instant (no memo keyed by the truncated second)
+    R2 = orth.LMat.gen("R_later")
+    d2 = datetime.datetime(2020, 1, 1, 0, 0, 0, 250000)
+    vc.stub(RD + "getRotR", lambda dd, dut1, eqe: R2 if dd is d2 else R)
+    r2 = vc.fn(RD + "ReductionParams.build")(lambda **kw: _NS(**kw), d2, eops)
+    vc.ensure("O-C04-build.composition", vc.And(vc.eq(r2.rot_pnr, PN @ R2), r2.date_time is d2))
 
 
 @obligation("C04", "precnut", ensures=["O-C04-precnut.orthogonal", "O-C04-precnut.composition"],
